@@ -162,6 +162,44 @@ Theorem C10_wrong_direction : forall (export : bytes -> bytes -> bytes) seal ope
 Proof. exact wrong_direction. Qed.
 Print Assumptions C10_wrong_direction.
 
+(* a shortened datagram: the decoder reads nonce and ciphertext by the inner
+   length fields and fills what the datagram does not hold with zeros (up to 12
+   bytes of the tag may be missing).  What holds: whatever is accepted, EXTENDED
+   WITH ZEROS to the lengths its authenticator declares (take_pad), carries the
+   seal under the receiver's key of the bytes in front of the authenticator *)
+Theorem C10_accept_zero_extended : forall seal open, aead_siv seal open ->
+  forall b key,
+  ((exists r, server_accept open b key = Ok r) \/ (exists id r, client_accept open b key id = Ok r)) ->
+  exists p pt, decode_packet b = Ok p /\ length (p_nonce p) = 16%nat /\
+    take_pad 16 (skipn (p_pos p + 8) b) = p_nonce p /\
+    take_pad (Z.to_nat (be16 b (p_pos p + 6))) (skipn (p_pos p + 24) b) =
+      seal key (p_nonce p) (Some (firstn (p_pos p) b)) pt.
+Proof. exact accept_zero_extended. Qed.
+Print Assumptions C10_accept_zero_extended.
+
+(* REFUTED: "any change to ... the ciphertext ... is rejected" read as "only the
+   datagram that was sealed is accepted".  With the cipher ex3 (Open succeeds
+   only on Seal's output) the request of the project's encoder ends in a zero
+   byte of the tag; with that byte cut off the shorter datagram is accepted by the
+   server and, as a response, by the client; under another key it is refused.
+   On the real code: known finding truncated-tag-zero-filled (kinds nts.trunctag,
+   srv.trunctag) *)
+Theorem C10_truncated_tag_refuted :
+  (forall k n ad p, ex3_open k n ad (ex3_seal k n ad p) = Some p) /\
+  (forall k n ad c p, ex3_open k n ad c = Some p -> c = ex3_seal k n ad p) /\
+  let key := repeat 7 32 in let rnd := repeat 9 16 in let uid := repeat 1 32 in
+  match enc_packet ex3_seal (repeat 0 48) uid [] [] key [] rnd with
+  | Ok b =>
+      let b' := firstn (length b - 1) b in
+      (length b' < length b)%nat /\ b' <> b /\
+      (exists r, server_accept ex3_open b' key = Ok r) /\
+      (exists r, client_accept ex3_open b' key uid = Ok r) /\
+      server_accept ex3_open b' (repeat 8 32) = Err ENotAuthentic
+  | _ => False
+  end.
+Proof. exact truncated_tag_refuted. Qed.
+Print Assumptions C10_truncated_tag_refuted.
+
 (* ---- tampering, keys, direction, identifier ---- *)
 
 (* two datagrams that verify and carry the same ciphertext were verified under
